@@ -249,6 +249,26 @@ def phot_stream(rep, r, n, lines, exps, metas):
                 rep.violation('flag8-ne-fit-report', f'flag bit 8 is set for rows {[j for j, v in enumerate(got8) if v]} but the fit reports of rows '
                               f'{[j for j, v in enumerate(exp8) if v]} say "not converged" (group ids {[int(v) for v in r8["group_id"]]})', replay)
                 continue
+        # (S) flag bit 16 (no covariance matrix returned by the fitter) is set for a fitter that returns none - the fitted errors are
+        #     then NaN - and never for the default fitter
+        if k % 6 == 1:
+            from astropy.modeling.fitting import SimplexLSQFitter
+            with warnings.catch_warnings():
+                warnings.simplefilter('ignore')
+                try:
+                    r16 = PSFPhotometry(model, fit_shape, grouper=None if no_grouper else SourceGrouper(sep), aperture_radius=4, progress_bar=False,
+                                        localbkg_estimator=localbkg_estimator, fitter=SimplexLSQFitter())(img, init_params=init, mask=umask)
+                except Exception as e:                          # noqa: BLE001
+                    rep.violation(f'psfphot-raises:{type(e).__name__}:simplex', f'PSFPhotometry(fitter=SimplexLSQFitter()) raised {e!r}', replay)
+                    continue
+            rep.count('flag16-probe')
+            nocov = [bool(np.isnan(float(v))) for v in r16['x_err']]
+            f16 = [bool(int(v) & 16) for v in r16['flags']]
+            d16 = [bool(int(v) & 16) for v in res['flags']]
+            if f16 != nocov or any(d16):
+                rep.violation('flag16-ne-no-covariance', f'flag bit 16: Simplex fitter rows {f16} (errors NaN: {nocov}); default fitter rows {d16} '
+                              f'(x_err {[float(v) for v in res["x_err"]]})', replay)
+                continue
         # (S) recovery of the rendered truth (noise-free, started within a pixel)
         bad = None
         for j, i in enumerate(order):
